@@ -305,7 +305,7 @@ fn store_mode(o: &Opts) {
             for _ in 0..3 { handles.push(s0.clone()); }
             drop(s0);
             let done: Rc<RefCell<Vec<String>>> = Rc::new(RefCell::new(vec![]));
-            let mut tasks: Vec<tokio::task::JoinHandle<()>> = vec![];
+            let mut tasks: Vec<(usize, tokio::task::JoinHandle<()>)> = vec![];
             let mut cmds = vec![]; let mut outs = vec![];
             for id in 0..ncmd {
                 let key = rng.gen_range(0, nkeys); let kb = vec![key as u8, 7, 7];
@@ -317,13 +317,18 @@ fn store_mode(o: &Opts) {
                 } else if x < 0.6 {
                     let r = handles[h].read(kb).await.unwrap(); cmds.push(format!("Read {} {}", key, id));
                     done.borrow_mut().push(format!("ORead {} {}", id, match r { Some(v) => format!("(Some {})", v[0]), None => "None".into() }));
-                } else if x < 0.93 {
+                } else if x < 0.85 {
                     let mut st = handles[h].clone(); let d = done.clone();
-                    tasks.push(tokio::task::spawn_local(async move { if let Ok(v) = st.notify_read(kb).await { d.borrow_mut().push(format!("ONotify {} {}", id, v[0])); } }));
+                    tasks.push((id, tokio::task::spawn_local(async move { if let Ok(v) = st.notify_read(kb).await { d.borrow_mut().push(format!("ONotify {} {}", id, v[0])); } })));
                     cmds.push(format!("NotifyRead {} {}", key, id));
+                } else if x < 0.93 {
+                    // abandon a notify-read (its future is dropped, as the payload waiter and the mempool synchronizer do on cleanup);
+                    // an already completed one is a no-op in both the model and the store
+                    if tasks.is_empty() { cmds.push(format!("Cancel {}", 999_999)); }
+                    else { let i = rng.gen_range(0, tasks.len()); let (wid, t) = tasks.remove(i); t.abort(); let _ = t.await; cmds.push(format!("Cancel {}", wid)); }
                 } else {
                     // drop every handle and pending waiter, reopen the database
-                    for t in tasks.drain(..) { t.abort(); }
+                    for (_, t) in tasks.drain(..) { t.abort(); }
                     handles.clear(); settle().await; settle().await;
                     let mut s1 = None;
                     for _ in 0..200 { match store::Store::new(&path) { Ok(s) => { s1 = Some(s); break; } Err(_) => { settle().await; std::thread::sleep(std::time::Duration::from_millis(5)); } } }
@@ -334,7 +339,7 @@ fn store_mode(o: &Opts) {
                 settle().await;
                 outs.push(coq_list(&done.borrow_mut().drain(..).collect::<Vec<_>>()));
             }
-            for t in tasks.drain(..) { t.abort(); }
+            for (_, t) in tasks.drain(..) { t.abort(); }
             handles.clear(); settle().await;
             (cmds, outs)
         });
